@@ -10,6 +10,7 @@
 #include <errno.h>
 #include <signal.h>
 #include <sys/mman.h>
+#include <sys/time.h>
 #include <sys/wait.h>
 #include <unistd.h>
 
@@ -81,7 +82,14 @@ class Explorer {
     fflush(stderr);
     pid_t p = fork();
     if (p == 0) {
-      alarm((unsigned)(cfg.timeout < 1 ? 1 : cfg.timeout));
+      // watchdog: CPU seconds (a frozen or overloaded machine is not a hang), wall only as a distant backstop
+      {
+        struct itimerval it;
+        memset(&it, 0, sizeof it);
+        it.it_value.tv_sec = (long)(cfg.timeout < 1 ? 1 : cfg.timeout);
+        setitimer(ITIMER_PROF, &it, nullptr);
+        alarm((unsigned)(30 * (cfg.timeout < 1 ? 1 : cfg.timeout)));
+      }
       if (cfg.useTbb) tbbrt_config(cfg.workers, cfg.concurrency);
       vs_begin(sh_);
       std::string out = body();
@@ -98,7 +106,7 @@ class Explorer {
     // the child arms its own watchdog (SIGALRM), so the parent can block instead of polling
     while (waitpid(p, &st, 0) < 0 && errno == EINTR) {
     }
-    if (WIFSIGNALED(st) && WTERMSIG(st) == SIGALRM) e.timedOut = true;
+    if (WIFSIGNALED(st) && (WTERMSIG(st) == SIGALRM || WTERMSIG(st) == SIGPROF)) e.timedOut = true;
     e.status = sh_->status;
     if (WIFSIGNALED(st)) e.sig = WTERMSIG(st);
     if (WIFEXITED(st)) e.exitCode = WEXITSTATUS(st);
